@@ -22,7 +22,7 @@ ASSUMPTIONS = [
 MENU = ["ins:raise", "item:err", "item:unset", "flush:raise", "flush:raiseB", "leaf:lzraise", "leaf:lzok", "leaf:ef",
         "leaf:nf", "wrap:N", "wrap:Xp", "wrap:Xr", "wrap:A", "ins:sync", "wrap:try", "ins:probe", "ins:iv"]
 CATS = ["active-task", "active-task-after", "scheduler-residue", "scheduler-str", "stale-task-ran",
-        "canary-differs", "hang", "worker-died"]
+        "canary-differs", "canary-stale-batch-flushed", "hang", "worker-died"]
 GUARD_CATS = [c for c in CATS if c != "active-task"]
 LADDER = {"quick": [(4, 0, ["call"]), (3, 1, ["call", "av"]), (2, 2, ["call"])],
           "thorough": [(5, 0, ["call"]), (4, 1, ["call", "av"]), (3, 2, ["call"]), (2, 3, ["call"])]}
@@ -107,8 +107,15 @@ def _history_judge(prog, r, exp, r1, spec, conv, out):
         a, b = X.observation(same[i]), X.observation(fresh[i])
         if a != b:
             d = [n for n, (x, y) in zip(("outcome", "flushes", "decisions", "contexts", "probes", "steps", "monitors"), zip(a, b)) if x != y]
+            sig = "canary-differs"
+            if d == ["flushes", "decisions"]:
+                # is the only difference that batches the EARLIER computation left scheduled (all their items belong to
+                # it) are flushed during the canary?
+                own = tuple(f for f in a[1] if not all(0 <= l < 1000 * i for l in f[1]))
+                if own == b[1]:
+                    sig = "canary-stale-batch-flushed"
             out["violations"].append({
-                "sig": "canary-differs",
+                "sig": sig,
                 "msg": "canary %d behaves differently after this computation than on a fresh scheduler (%s): %r vs %r"
                        % (i, ",".join(d), [x for x, y in zip(a, b) if x != y][0], [y for x, y in zip(a, b) if x != y][0]),
                 "features": progx.feats(prog) + ["conv:" + conv], "case": _case(prog, r, conv, spec)})
